@@ -327,6 +327,13 @@ def all_obligations():
     A(Ob(name='encode.selector_send', props=['C02', 'C01'], kind='bounded', harness='h_encode_sections.c', entry='h_selector_send', bound='3 selectors (symbolic MTF positions), 2..6 tables, both possible bit-buffer fills at that point',
          what='transmit(): the 3-bit table count, the 15-bit selector count and one unary code per selector (position in ones, then a zero) are appended bit-exactly',
          functions=['transmit (selector section)'], flags=['--unwind', '130', '--unwinding-assertions'], expect=['each selector is sent in unary', '3-bit table count'], assumed=XS, replayable=True))
+    for tas, lmax, tier in ((2, 4, 'quick'), (3, 6, 'thorough')):
+        A(Ob(name=f'encode.tables_send.a{tas}l{lmax}', props=['C02', 'C01'], kind='bounded', harness='h_encode_sections.c', entry='h_tables_send', solver='cadical', tier=tier,
+             defines={'TS_AS': str(tas), 'TS_LMAX': str(lmax)}, bound=f'two tables of {tas} symbols, code lengths 1..{lmax} symbolic, padding 0..3 symbolic',
+             what='transmit(): the code-length tables (5-bit start value incl. padding, +1/-1 delta codes, stop bits) read back with the strict step-by-step decoder of bzip2 1.0.x give exactly the lengths, '
+                  'every intermediate value within 1..20, nothing else appended',
+             functions=['transmit (table section)'], flags=['--unwind', '24', '--unwindset', 'h_tables_send.6:258,h_tables_send.7:258', '--unwinding-assertions'], timeout=1200,
+             expect=['tables: decoding the transmitted bits', 'tables: the start value and every intermediate'], assumed=XS, replayable=True))
     A(Ob(name='encode.first_length', props=['C02'], kind='lemma', harness='h_encode_sections.c', entry='h_first_length',
          what='transmit(): for every first code length 1..20 and padding 0..3 the 5-bit start value of the first table stays within 1..20 and lies exactly tree_pad steps from the real length',
          functions=['transmit (first-length section)'], flags=['--unwind', '8', '--unwinding-assertions'], expect=['first table: the 5-bit start value stays within'], assumed=XS, replayable=True))
